@@ -808,6 +808,7 @@ func init() {
 		for i := 0; i < 4*c.budget && !c.expired(); i++ {
 			drainRace(c, 700)
 		}
+		slowOutage(c)
 		outage(c, 1, 0)
 		outage(c, 3, 0)
 		outage(c, 1, 1040)
